@@ -191,6 +191,14 @@ def _round(case):
             if ok2:
                 c.true("q!=-q", e is False or e == False, "q != -q gave %r" % (e,))  # noqa
             c.eq("R(-q)=R(q)", np.asarray(qn.R, dtype=float), np.asarray(q.R, dtype=float), 1e-12)
+        # the unary minus gives that antipodal representative: a UnitQuaternion with negated components, the same rotation
+        ok, qm = c.lib("-q", lambda: -q)
+        if ok and c.true("-q/type", type(qm) is L.UnitQuaternion and len(qm) == 1, "-q is %s" % type(qm).__name__):
+            c.eq("-q/value", np.asarray(qm.vec, dtype=float), -v, 1e-12)
+            c.eq("-q/operand", np.asarray(q.vec, dtype=float), v, 0)
+            ok2, e = c.lib("-q==q", lambda: qm == q)
+            if ok2:
+                c.true("-q==q", e is True or e == True, "(-q) == q gave %r" % (e,))  # noqa
     if "Twist3" in objs and "UnitDualQuaternion" in objs:
         ok, X2 = c.lib("Twist3->SE3->UDQ", lambda: L.UnitDualQuaternion(objs["Twist3"].SE3()))
         if ok:
